@@ -72,6 +72,24 @@ def loaded_times_cases():
                 if s_.dynamics is not None and len(s_.dynamics.dt) != fsteps[-1]:
                     bad.append(dict(case, what=f"per-step records of the {nm_} solution: {len(s_.dynamics.dt)} for {fsteps[-1]} steps"))
                     break
+        # an output path used again after the first file was deleted (sweeps that keep one file name): the second solution reports ITS frames' times
+        pth = os.path.join(td, "reused.h5")
+        for leg, (dt_, field_) in enumerate(((1.0 / 64, 0.2), (1.0 / 32, 0.5))):
+            o = tdgl.SolverOptions(solve_time=0.5 * (leg + 1) * 0 + (0.25 if leg == 0 else 0.5), save_every=4, adaptive=False, dt_init=dt_, output_file=pth)
+            sol = tdgl.solve(dev, o, applied_vector_potential=field_)
+            n += 1
+            if os.path.abspath(sol.path) != os.path.abspath(pth):
+                break          # a fresh name was chosen: the scenario does not apply
+            for nm_, s_ in (("returned", sol), ("loaded", tdgl.Solution.from_hdf5(sol.path))):
+                with h5py.File(sol.path, "r") as f:
+                    keys = sorted(f["data"], key=int)
+                    ftimes = np.array([float(f["data"][q].attrs["time"]) for q in keys])
+                t_ = np.asarray(s_.times)
+                if len(t_) != len(ftimes) or not np.allclose(t_, ftimes, rtol=1e-12, atol=1e-15) or not np.allclose(s_.dynamics.dt, dt_):
+                    bad.append(dict(what=f"a run written to a path that an earlier (deleted) run had used: times / time steps of the {nm_} solution are not those of its own frames",
+                                    leg=leg, dt=dt_, reported_dt=float(np.asarray(s_.dynamics.dt)[0]), last_time=float(t_[-1]), last_frame_time=float(ftimes[-1])))
+                    break
+            sol.delete_hdf5()
     logging.disable(logging.NOTSET)
     return bad, n
 
